@@ -16,7 +16,9 @@ VARIABLES l, nbad, nsingle, nany
 vars == <<l, nbad, nsingle, nany>>
 
 Fld(r, f) == IF f \in DOMAIN r THEN r[f] ELSE <<>>
-Expect(r) == Eval(r.tree, Env0(Fld(r, "bind"), Fld(r, "progs"), Fld(r, "funcs")))
+(* an evaluation that ran out of depth somewhere may have been aborted as a whole *)
+Expect(r) == LET e == Eval(r.tree, Env0(Fld(r, "bind"), Fld(r, "progs"), Fld(r, "funcs")))
+             IN IF \E i \in 1..Len(e.log) : e.log[i] = "#depth" THEN [o |-> Weaken(e.o), log |-> <<>>, lk |-> FALSE] ELSE e
 
 (* laws that hold even where the outcome is not unique: a sort result is an ordered permutation (C04) *)
 SortLaw(r, ob) ==
